@@ -164,20 +164,38 @@ def landmark_roundtrip(ctx, fmt, cls, d, nan, magnitude='hundreds'):
     rs = ctx.nprng
     with tempfile.TemporaryDirectory() as td:
         if cls == 'LandmarkManager':
-            owner = S.PointCloud(rs.randn(3, 2))
-            sh = _shapes(rs, 2)
-            names = ['z-group', 'a group', 'ümläut']
-            for nm, k in zip(names, ('LabelledPointUndirectedGraph', 'PointCloud', 'PointUndirectedGraph')):
-                g = sh[k]
-                g.points[1, 0] = np.nan
-                owner.landmarks[nm] = g
-            p = os.path.join(td, 'm.ljson')
-            mio.export_landmark_file(owner.landmarks, p)
-            back = mio.import_landmark_file(p)
-            ctx.check_true('same-group-names', sorted(back) == sorted(names), str(list(back)))
-            for nm in names:
-                a, b = owner.landmarks[nm], back[nm]
-                ctx.check_true('group[%s]/coordinates' % nm, np.array_equal(a.points, b.points, equal_nan=True))
+            # several groups in one file, in every order of the group kinds (the file lists groups by name): each group
+            # comes back as itself - coordinates, edges, and labels exactly when it had labels
+            import itertools
+            kinds = ('LabelledPointUndirectedGraph', 'PointCloud', 'PointUndirectedGraph', 'EmptyEdges')
+            names = ['a group', 'm-group', 'z-group', 'ümläut']
+            for perm_no, perm in enumerate(itertools.permutations(kinds)):
+                owner = S.PointCloud(rs.randn(3, 2))
+                sh = _shapes(rs, 2)
+                for nm, k in zip(names, perm):
+                    g = sh[k].copy()
+                    g.points[1, 0] = np.nan
+                    if k == 'PointCloud':
+                        g = S.PointCloud(g.points[:3])          # groups of different sizes in one file
+                    owner.landmarks[nm] = g
+                p = os.path.join(td, 'm%d.ljson' % perm_no)
+                mio.export_landmark_file(owner.landmarks, p)
+                try:
+                    back = mio.import_landmark_file(p)
+                except Exception as e:
+                    ctx.check_true('order[%s]/imports' % ','.join(k[:5] for k in perm), False, '%s: %s' % (type(e).__name__, e))
+                    continue
+                ctx.check_true('same-group-names', sorted(back) == sorted(names), str(list(back)))
+                for nm, k in zip(names, perm):
+                    a, b = owner.landmarks[nm], back[nm]
+                    tag = 'group[%s after %s]' % (k, ','.join(kk[:5] for kk in perm[:perm.index(k)]) or '-')
+                    ctx.check_true(tag + '/coordinates', np.array_equal(a.points, b.points, equal_nan=True))
+                    Aa = a.adjacency_matrix.toarray() != 0 if hasattr(a, 'adjacency_matrix') else np.zeros((a.n_points, a.n_points), bool)
+                    Ab = b.adjacency_matrix.toarray() != 0 if hasattr(b, 'adjacency_matrix') else np.zeros((b.n_points, b.n_points), bool)
+                    ctx.check_true(tag + '/same-undirected-edges', Aa.shape == Ab.shape and np.array_equal(Ab | Ab.T, Aa | Aa.T))
+                    la, lb = list(getattr(a, 'labels', [])), list(getattr(b, 'labels', []))
+                    ctx.check_true(tag + '/same-labels-in-order', la == lb, '%s vs %s' % (lb, la))
+                    ctx.check_true(tag + '/label-masks', all(np.array_equal(b._labels_to_masks[l], a._labels_to_masks[l]) for l in la if l in lb))
             return
         obj = _shapes(rs, d, magnitude)[cls]
         if nan == 'full-row':
